@@ -395,7 +395,10 @@ def check_copies(kind, seed, d, used, n=4):
         draw(a, sp, n)
     elif used == "small":
         draw(a, sp_small, n)
-    copies = {"pickle": pickle.loads(pickle.dumps(a)), "deepcopy": copy.deepcopy(a)}
+    try:
+        copies = {"pickle": pickle.loads(pickle.dumps(a)), "deepcopy": copy.deepcopy(a)}
+    except Exception:  # noqa: BLE001  (whether a sampler can be copied at all is C04's subject)
+        return []
     want = draw(a, sp, n)
     for how, c in copies.items():
         got = draw(c, sp, n)
